@@ -537,7 +537,8 @@ pub async fn run_case(w: &World, c: &Case, out: &mut Outcome, verbose: bool) -> 
     // an honest row (all-writer C, valid date, same entity and day as the forged item) travelling along
     let mut honest: Option<Node> = None;
     if c.with_honest {
-        let hn = signed_node(&u.p_short, room, 2, d, d, pj("honest"), None);
+        // the honest row lives in the room that is pulled (for a move out of the first room that is the second one)
+        let hn = signed_node(&u.p_short, pulled, 2, d, d, pj("honest"), None);
         honest = Some(hn.clone());
         mark.push((u.p_short.clone(), d));
         sender_nodes.insert(0, hn);
